@@ -80,11 +80,17 @@ def modelAll (probe : Bytes → Probe) (zombie hasRollup : Bool) (pagesize : Nat
    ("maps", jRes (jList jRow) maps), ("grouped", jRes (jList jGRow) grp),
    ("pct", jList (fun p => jRes jRat (memoryPercent cfg p.memtype info full p.cached p.vmTotal)) pcts)]
 
-def specPct (pagesize : Nat) (st : Statm) (ms : List Mapping) (p : Pct) : Json :=
+/-- `_parse_smaps` as written (findall over the whole text) and its line-anchored reading, side by
+    side (informational: the harness counts the inputs on which they differ) -/
+def readings (smaps : Bytes) : Json :=
+  let jF (f : Full) : Json := jList jNat [f.uss, f.pss, f.swap]
+  jObj [("regex", jRes jF (parseSmaps cfg smaps)), ("lines", jF (parseSmapsLines cfg smaps))]
+
+def specPct (fullVals : List Nat) (p : Pct) : Json :=
   let total : Int := match p.cached with
     | some t => if t = 0 then p.vmTotal else t
     | none => p.vmTotal
-  match (pfullmemNames.zip (specFullInfo pagesize st ms)).lookup p.memtype with
+  match (pfullmemNames.zip fullVals).lookup p.memtype with
   | none => jObj [("exc", Json.str "ValueError")]
   | some v => if total > 0 then jObj [("ok", jRat (specPercent v total))] else Json.null
 
@@ -193,7 +199,8 @@ def handle (_ : Unit) (j : Json) : R (Unit × Json) := do
     let info := memoryInfo cfg pagesize statm
     let full := memoryFullInfo cfg hasRollup pagesize rollup smaps statm
     let ho ← histOut j info full (fun _ => none)
-    return ((), jObj ([("model", jObj (modelAll probe zombie hasRollup pagesize rollup smaps statm pcts))] ++ ho))
+    return ((), jObj ([("model", jObj (modelAll probe zombie hasRollup pagesize rollup smaps statm pcts)),
+      ("readings", readings smaps)] ++ ho))
   else if op == "case" then
     let ms ← listF parseMapping j "ms"
     let cols ← listF asNat j "statm"
@@ -202,7 +209,15 @@ def handle (_ : Unit) (j : Json) : R (Unit × Json) := do
       | _ => .error "statm must have 7 columns"
     let smaps := renderSmaps ms
     let statm := renderStatm st
-    let rb := renderRollup (rollupKeysOf ms) ms
+    -- optional: the roll-up as a record of its own (keys / values independent of the mappings)
+    let rkv : Option (List KV) ← optF (asList parseKV) j "rollupKV"
+    let rrange : Option (List Nat) ← optF (asList asNat) j "rollupRange"
+    let (rlo, rhi) : Nat × Nat := match rrange with
+      | some [a, b] => (a, b)
+      | _ => ((ms.head?.map (·.lo)).getD 0, (ms.getLast?.map (·.hi)).getD 0)
+    let rb := match rkv with
+      | some kvs => renderRollupRec rlo rhi kvs
+      | none => renderRollup (rollupKeysOf ms) ms
     let rollup ← parseRollupMode mode rb
     -- the full domain of the property (names ending in blanks included), whatever the code does
     let wf := wfSmaps false ms && ms.all (fsConsistent probe)
@@ -216,16 +231,27 @@ def handle (_ : Unit) (j : Json) : R (Unit × Json) := do
     let specGrp : Json :=
       if ms.isEmpty then (if zombie then jObj [("exc", Json.str "ZombieProcess")] else jObj [("ok", jList jGRow [])])
       else if wf || wfG then jObj [("ok", jList jGRow (specGrouped rowKeys.length rows))] else Json.null
-    let fullOk := ms.isEmpty || wf
+    -- uss / pss / swap: from the roll-up record when it is the source (C13_full_info_from_rollup),
+    -- else the sums over the mappings (C13_full_info_sums / C13_rollup_agrees)
+    let fromRec : Option (List KV) := if hasRollup && mode == "data" then rkv else none
+    let fullVals : Option (List Nat) := match fromRec with
+      | some kvs =>
+        if wfRollupRec kvs then
+          let f := specFullRollup kvs
+          some (specMemInfo pagesize st ++ [f.uss, f.pss, f.swap])
+        else none
+      | none => if ms.isEmpty || wf then some (specFullInfo pagesize st ms) else none
     let spec := jObj [
       ("info", jObj [("ok", jList jNat (specMemInfo pagesize st))]),
-      ("full", if fullOk then jObj [("ok", jList jNat (specFullInfo pagesize st ms))] else Json.null),
+      ("full", match fullVals with | some v => jObj [("ok", jList jNat v)] | none => Json.null),
       ("maps", specMaps), ("grouped", specGrp),
-      ("pct", jList (fun p => if fullOk then specPct pagesize st ms p else Json.null) pcts)]
+      ("pct", jList (fun p => match fullVals with | some v => specPct v p | none => Json.null) pcts)]
     let info := memoryInfo cfg pagesize statm
     let full := memoryFullInfo cfg hasRollup pagesize rollup smaps statm
     let specVal : String → Option (Option Nat) := fun mt =>
-      if fullOk then some ((pfullmemNames.zip (specFullInfo pagesize st ms)).lookup mt) else none
+      match fullVals with
+      | some v => some ((pfullmemNames.zip v).lookup mt)
+      | none => none
     let ho ← histOut j info full specVal
     -- what the never-cleared dict makes of non-uniform key lists (C13_maps_nonuniform_exact)
     let inh : Json :=
@@ -234,7 +260,8 @@ def handle (_ : Unit) (j : Json) : R (Unit × Json) := do
     return ((), jObj ([
       ("files", jObj [("smaps", jBytes smaps), ("statm", jBytes statm), ("rollup", jBytes rb)]),
       ("wf", Json.bool wf), ("wfOwn", Json.bool (wfSmapsOwn false ms)), ("uniform", Json.bool (uniformKeys ms)),
-      ("nostale", Json.bool (noStale [] ms)), ("inherit", inh),
+      ("nostale", Json.bool (noStale [] ms)), ("inherit", inh), ("readings", readings smaps),
+      ("rollupRec", Json.bool fromRec.isSome),
       ("model", jObj (modelAll probe zombie hasRollup pagesize rollup smaps statm pcts)),
       ("spec", spec)] ++ ho))
   else .error s!"unknown op {op}"
